@@ -12,6 +12,7 @@
      fdselect-enc (fd ...)       -> xBYTES
      fdselect-read nGlyphs nPrivate xDATA -> (ok (fd ...) endpos) | err | panic
      charset-predef id nGlyphs   -> (ok (sid ...)) | err
+     fontmatrix place (e0..e5)   -> (written b (e0..e5 read back)), entries in 1e-6 units
      real-layout neg (d1..dm) l  -> xBYTES   (nibble coding of +-0.d1..dm * 10^l)
      layout seed style (sections) -> (ok (offs ...) hdrOffSize) | fuel
         section = (f n) | (l n) | (d base (ops)) | (i ((base (ops)) ...)),  op = (o j) | (x a b) | (z j)
@@ -100,6 +101,12 @@ let () = main_loop (fun c ->
     az (m_width_decode (sx_z def) (sx_z nom) (m_width_encode (sx_z def) (sx_z nom) (sx_z w)))
   | [A "charset-predef"; id; n] ->
     outc (fun l -> L [A "ok"; L (List.map an l)]) (m_predefined_charset (sx_n id) (sx_n n))
+  | [A "fontmatrix"; place; es] ->
+    let p = (match atom place with
+      | "top-simple" -> FmTopSimple | "top-cid" -> FmTopCID | "fd" -> FmFontDict
+      | _ -> failwith "bad place") in
+    let w = m_fm_write p (List.map sx_z (lst es)) in
+    L [A "written"; ab (w <> None); L (List.map az (m_fm_read p w))]
   | [A "real-layout"; neg; digits; l] ->
     hexa (m_real_layout (sx_bool neg) (List.map sx_n (lst digits)) (sx_z l))
   | _ -> failwith "bad case")
